@@ -194,7 +194,7 @@ theorem lzma_marker_uniform (pr : Params) (dictBuf : Nat) (hd : dictBuf ≤ END_
     simp only [encodeParse, hencF fuel hf]
   · intro rest cap hcap
     have henc := hencF (cap + 1) (by omega)
-    obtain ⟨d0, d', hinit, hdec, hinp, hover, _, hhead, _, _, hlen5⟩ :=
+    obtain ⟨d0, d', hinit, hdec, hinp, hover, hover0, hhead, _, _, hlen5⟩ :=
       rc_roundtrip _ _ _ (probsOk_fresh pr) _ _ _ henc rest
     obtain ⟨b0, tl, hbt⟩ : ∃ b0 tl, e'.bytes ++ rest = b0 :: tl := by
       cases hb : e'.bytes with
@@ -210,7 +210,9 @@ theorem lzma_marker_uniform (pr : Params) (dictBuf : Nat) (hd : dictBuf ≤ END_
         omega
     rw [hbt] at hinit ⊢
     rw [decodeRaw_eq pr dictBuf preset none b0 tl cap d0 hb0 hinit, hpu]
-    simp only [hdec, hinp, hover, Nat.lt_irrefl, if_false, List.reverse_cons, List.reverse_reverse]
+    simp only [hdec]
+    rw [rawFinish_marker _ _ _ _ rfl hover0 hover]
+    simp only [hinp, List.reverse_cons, List.reverse_reverse]
     have : (b0 :: tl).length - rest.length = e'.bytes.length := by
       rw [← hbt, List.length_append]; omega
     rw [this]
